@@ -114,7 +114,7 @@ pub fn gen_loops(sh: &mut Shards, o: &Opts) -> serde_json::Value {
                 continue;
             }
             for st in [8u8, 16] {
-                let c = Cfg { mc: [1u8, 5, 9, 8][(sid % 4) as usize], tc: 1, cp: 1, full: sid % 2 == 0, n: if st == 8 { 8 } else { 10 }, ssx: sx, ssy: sy };
+                let c = Cfg { mc: [1u8, 5, 9, 8][(sid % 4) as usize], tc: 1, cp: 1, full: (sid / 4) % 2 == 0, n: if st == 8 { 8 } else { 10 }, ssx: sx, ssy: sy };
                 sid += 1;
                 if st == 8 {
                     enc_session::<u8>(sh, sid, &c, st, w, h, &mut rng);
